@@ -35,8 +35,9 @@ extern void *mpt_queue_resize(MPT_STRUCT(queue) *queue, size_t len)
 			mpt_queue_crop(queue, 0, queue->len - len);
 		}
 		mpt_queue_align(queue, 0);
+		/* content is reduced already: a block that could not be shrunk stays in use */
 		if (!(data = realloc(queue->base, len))) {
-			return 0;
+			data = queue->base;
 		}
 		queue->base = data;
 		queue->max  = len;
